@@ -4,12 +4,14 @@ EXTENDS HttpDate, Json
 
 CONSTANT FullUntil     \* months of years <= FullUntil are always emitted; later years: December to March only
 
-Emit == y <= FullUntil \/ m \in {12, 1, 2, 3}
+\* days of the current month (as day-of-month) every second of which is to be replayed; Start = day number of the 1st
+Es(start) == { i \in 1..DaysIn(m, y) : (start + i - 1) \in EverySecondDays }
+Emit == y <= FullUntil \/ m \in {12, 1, 2, 3} \/ Es(ms) # {}
 \* "day" mode: at the last day of a month the stepped weekdays of the whole month are known
 GenMonthByDays == (d = DaysIn(m, y) /\ Emit) =>
-  PrintT(ToJson([k |-> "month", n0 |-> day - d + 1, y |-> y, m |-> m, mp |-> MonthPart(m, y), days |-> dps]))
+  PrintT(ToJson([k |-> "month", n0 |-> day - d + 1, y |-> y, m |-> m, mp |-> MonthPart(m, y), days |-> dps, es |-> Es(day - d + 1)]))
 \* "month" mode: a state is the 1st of a month
 GenMonthByJumps == Emit =>
-  PrintT(ToJson([k |-> "month", n0 |-> ms, y |-> y, m |-> m, mp |-> MonthPart(m, y), days |-> MonthDays(mw, m, y)]))
+  PrintT(ToJson([k |-> "month", n0 |-> ms, y |-> y, m |-> m, mp |-> MonthPart(m, y), days |-> MonthDays(mw, m, y), es |-> Es(ms)]))
 GenClock == ss = 59 => PrintT(ToJson([k |-> "minute", s0 |-> sod - 59, tps |-> tps]))
 =============================================================================
